@@ -66,7 +66,7 @@ func init() {
 		Assumptions: commonAssumptions, MinEvals: 3000000,
 		MinCounters: map[string]int64{"trees_compared": 500000, "expected_failures_observed": 500000, "duplicate_keys": 200, "escaped_keys": 200}})
 	register(&Spec{ID: "C04", Run: RunC04,
-		Rule:        "inputs: W6b (per Eisel-Lemire table row -348..347: decimals of 17-19 digits straddling an exact float midpoint), W6c (random floats x exact midpoint expansion truncated to 15..770 digits, +-1 in the last place, six spellings, >800-digit sticky tails), W6e (every exponent -400..400), W6s (overflow threshold at every length, subnormal halves, zeros, long exponents, classic hard cases); each literal with followers/whitespace through ReadFloat64, DecodeFloat64 and ReadValue; distinct by literal hash; non-trivial = more than 15 significant digits or an exponent part",
+		Rule:        "inputs: W6b (per Eisel-Lemire table row -348..347: decimals of 17-19 digits straddling an exact float midpoint), W6c (random floats x exact midpoint expansion truncated to 15..770 digits, +-1 in the last place, six spellings, >800-digit sticky tails), W6e (every exponent -400..400), W6s (overflow threshold at every length, subnormal halves, zeros, long exponents, classic hard cases); each literal with followers/whitespace through ReadFloat64, DecodeFloat64 and ReadValue; the generated families are sharded by generator index and de-duplicated by literal hash within each shard (cross-shard duplicates are negligible for these long literals); non-trivial = more than 15 significant digits or an exponent part",
 		Assumptions: append([]string{"oracle: strconv.ParseFloat; a 2% sample is re-derived with exact big.Rat arithmetic (ties-to-even) and a disagreement makes the run inconclusive; literals whose integer part has more than 800 digits are decided by the exact big.Rat computation alone, because strconv itself is wrong there"}, commonAssumptions...),
 		MinEvals:    800000,
 		MinCounters: map[string]int64{"digits_17_to_19": 100000, "digits_20_to_800": 50000, "digits_over_800": 500, "expect_range_error": 1000, "expect_subnormal": 2000, "oracle_rechecked_with_exact_rational_arithmetic": 3000, "oracle_is_exact_rational_arithmetic_because_integer_part_exceeds_800_digits": 300}})
